@@ -641,6 +641,20 @@ class GenSim:
         return self._enums[key]
 
     def global_name(self, modname, name, interp):
+        if name == 'numbers':
+            class _Number(AbsObj):
+                def instancecheck_(self, x):
+                    if is_unk(x):
+                        return Unk('isinstance')
+                    return isinstance(x, (int, float)) and \
+                        not isinstance(x, bool)
+
+            class _Numbers(AbsObj):
+                def getattr_(self, a, interp):
+                    if a in ('Number', 'Real'):
+                        return _Number()
+                    return Unk(f'numbers.{a}')
+            return _Numbers()
         if name == 'Type':
             return TypeNS()
         if name in ('expr', 'stmt'):
